@@ -97,6 +97,7 @@ class J2Ref:
         return S * x ** (1.0 / m)
 
     def dY(self, e):
+        e = onp.asarray(e, dtype=float)
         p, Y0 = self.lawp, self.Y0
         if self.law == "linear":
             return p["H"] + 0.0 * e
@@ -106,11 +107,12 @@ class J2Ref:
         return Y0 / (n * e0) * (1.0 + e / e0) ** (1.0 / n - 1.0)
 
     def dsig_rate(self, d, dt):
+        d = onp.asarray(d, dtype=float)
         if self.rate is None:
-            return 0.0
+            return onp.zeros_like(d)
         S, m, r0 = self.rate["S"], self.rate["m"], self.rate["epsDot0"]
         with onp.errstate(all="ignore"):
-            x = max(d, 0.0) / dt / r0
+            x = onp.maximum(d, 0.0) / dt / r0
             return S / m * x ** (1.0 / m - 1.0) / (dt * r0)
 
     def rootfind_path_labels(self, a, e_old, dt, r_tol, max_iters=50):
